@@ -41,7 +41,7 @@ def with_timeout(seconds, fn, *a, **kw):
 
 # ------------------------------------------------------------------------------------------------ generator
 def gen_program(rng, cyclic=True, negation=True, ads=True, evidence=True, max_level=2, negloops=0.0, big=False,
-                disjunction=False):
+                disjunction=False, numeric=False):
     """Typed random program: base facts (probabilistic/deterministic), derived predicates on levels (negation only on
     strictly lower levels => predicate-level stratified; positive recursion allowed within a level), ADs with and
     without bodies, ground and non-ground queries, evidence that holds in a sampled world (consistent by construction,
@@ -217,18 +217,18 @@ def gen_program(rng, cyclic=True, negation=True, ads=True, evidence=True, max_le
             if rng.random() < 0.3:
                 alias_val = not alias_val
             P["evidence"] = [(a, v) for a, v in P["evidence"] if a != at and a != (name, ())] + [(at, base), ((name, ()), alias_val)]
-    _post_shapes(P, random.Random("post|" + repr((stmts, qs, P["evidence"]))), max_level)
+    _post_shapes(P, random.Random("post|" + repr((stmts, qs, P["evidence"]))), max_level, evidence, numeric, negation)
     return P
 
 
-def _post_shapes(P, r2, max_level):
+def _post_shapes(P, r2, max_level, evidence=True, numeric=False, negation=True):
     """Shapes added AFTER the main draw, from a generator seeded by the program text (the main random stream, and with it
     every program of every seed, stays what it was): (1) a new predicate whose clause body is a single NEGATIVE ground
     literal, optionally with the complementary positive clause (`nb :- \\+f(c). nb :- f(c).`: two bare-literal proofs that
     are each other's complement), a user of it, queries, and evidence on it where that is consistent by construction;
     (2) numeric constants (an integer and a float) instead of two of the atoms."""
     pfs = [st[2] for st in P["stmts"] if st[0] == "pf" and 0 < st[1] < 1]
-    if pfs and r2.random() < 0.3:
+    if pfs and negation and r2.random() < 0.3:
         at = r2.choice(pfs)
         lvl = 1 + max(l for a, l in P["preds"].values())
         P["preds"]["nb"] = (0, lvl)
@@ -247,11 +247,13 @@ def _post_shapes(P, r2, max_level):
             P["queries"].append(("nb", ()))
         for st in new:
             P["stmts"].insert(r2.randrange(len(P["stmts"]) + 1), st)
-        if compl and r2.random() < 0.4:
+        if not evidence:
+            pass                                                          # the caller asked for programs without evidence
+        elif compl and r2.random() < 0.4:
             P["evidence"] = P["evidence"] + [(("nb", ()), True)]          # nb is certainly true: consistent with anything
         elif not compl and not P["evidence"] and r2.random() < 0.4:
             P["evidence"] = [(("nb", ()), r2.random() < 0.5)]            # the fact is open: both values have probability > 0
-    if r2.random() < 0.12 and len(P["consts"]) >= 2:
+    if numeric and r2.random() < 0.12 and len(P["consts"]) >= 2:
         ren = dict(zip(P["consts"][1:], ["1", "2.5"]))
         f = lambda at: (at[0], tuple(ren.get(x, x) for x in at[1]))
 
